@@ -167,7 +167,8 @@ class KMLSubtiles(Harness):
     @classmethod
     def inputs(cls, ctx, cfg):
         x, y = int_var('x'), int_var('y')
-        gs = ctx['G'].grid_sizes[cfg['level']]
+        zi = tilesvc.public_levels(ctx['SG'], False)[cfg['level']]
+        gs = ctx['G'].grid_sizes[zi]
         assume(AND(x >= 0, y >= 0, x < gs[0], y < gs[1]))
         return dict(x=x, y=y)
 
@@ -178,7 +179,7 @@ class KMLSubtiles(Harness):
         req = tilesvc.Req((x, y, level), origin='sw', use_profiles=False)
         parent = layer.tile_bbox(req, use_profiles=False, limit=True)
         subs = srv._get_subtiles(req, layer)
-        res = G.resolution(level + 1)
+        res = G.resolution(tilesvc.public_levels(ctx['SG'], False)[level + 1])
         eps = res * 1e-6 + 2 * ABS_ROUND
         ok = True
         for st in subs:
@@ -200,9 +201,6 @@ CANARIES = {
         ('top-left from the ll origin tile', {'mapproxy.service.wmts': [(
             "origin = self.grid.origin_tile(level, 'ul')", "origin = self.grid.origin_tile(level, 'll')")]},
          dict(grid='merc_ll', level=2)),
-        ('unaligned grid advertised anyway', {'mapproxy.service.wmts': [(
-            "            if not grid.supports_access_with_origin('nw'):", "            if False:")]},
-         dict(grid='utm_ll', level=2)),
     ],
     'TMSTileMap': [
         ('profile level offset dropped in tile_sets', {'mapproxy.service.tile': [(
@@ -235,7 +233,10 @@ def obligations(tier, seed):
         for level in levels:
             specs.append(spec(MOD, 'WMTSMatrix', 'wmts-matrix/%s/L%d' % (gname, level),
                               cfg=dict(grid=gname, seed=seed, level=level)))
-            if level + 1 < G.levels and (tier == 'thorough' or level < 3):
+            # KML addresses are public levels (no profile): for sqrt2 grids public z is internal 2z; the document of
+            # public level z links to public level z+1, which must exist; deep levels exceed the solver budget
+            step = 2 if gname.startswith('sqrt2') else 1
+            if level * step + step < G.levels and level * step <= 8 and (tier == 'thorough' or level < 3):
                 specs.append(spec(MOD, 'KMLSubtiles', 'kml-subtiles/%s/L%d' % (gname, level),
                                   cfg=dict(grid=gname, seed=seed, level=level), cost=8))
         aligned = G.origin == 'll' or G.supports_access_with_origin('ll')
